@@ -143,7 +143,7 @@ namespace {
              ExprListMember, WarehouseProduct, Subregion, ClassField, BlockStmt, BindingId, NOPS };
    const char* op_name[] = { "make_plus", "get_pointer", "get_identifier", "get_literal", "get_symbol", "get_label", "enum.add_member", "mapping.param", "class.declare_base", "block.new_handler",
                              "module.make_unit", "pragma.tokens.push_back", "closure.captures.push_back", "using.seq.push_back", "region.declare_var(fresh)", "region.declare_var(x,int) again",
-                             "expr_list.push_back", "get_product(warehouse);destroy+scribble", "make_subregion+declare", "class.declare_field", "block.add_stmt", "structured_binding.ids.push_back" };
+                             "expr_list.push_back", "get_product+get_sum(warehouse);destroy+scribble", "make_subregion+declare", "class.declare_field", "block.add_stmt", "structured_binding.ids.push_back" };
 
    struct Snap {
       std::string label;
@@ -335,12 +335,14 @@ namespace {
          case ExprListMember: { auto* e = lex.make_literal(lex.int_type(), u8"5"); XL->push_back(e); model_xl.push_back(e); dirty = { "XL" }; break; }
          case WarehouseProduct: {
             const ipr::Product* p = nullptr;
+            const ipr::Sum* sm = nullptr;
             std::size_t bytes = 0;
             {
                ipr::impl::Warehouse<ipr::Type> w;
                const int len = counter % 4;
                for (int i = 0; i < len; ++i) w.push_back(i % 2 ? lex.int_type() : static_cast<const ipr::Type&>(*tower));
                p = &lex.get_product(w);
+               sm = &lex.get_sum(w);
                bytes = sizeof(void*) * std::size_t(len ? len : 1);
             }
             // the warehouse is gone: reuse and scribble storage of the same size classes
@@ -349,7 +351,8 @@ namespace {
                for (int k = 0; k < 4; ++k) { blocks.push_back(new char[sz]); std::memset(blocks.back(), 0xAB, sz); }
                for (auto b : blocks) delete[] b;
             }
-            if (not index.count("product-of-" + std::to_string(counter % 4) + "@" + ctx.namer.of(static_cast<const void*>(static_cast<const ipr::Node*>(p))))) add_node("product" + tag, *p, false);
+            add_node("product" + tag, *p, false);
+            add_node("sum" + tag, *sm, false);
             break;
          }
          case Subregion: { auto* r = R->make_subregion(); auto* v = r->declare_var(lex.get_identifier(u8"x"), lex.int_type()); must_be_fresh(*r, op_name[op]); add_node("subregion" + tag, *r, true); add_node("subvar" + tag, *v, true); break; }
